@@ -601,18 +601,20 @@ def main(run):
                 fits = rec.assoc[0]["fits"]
                 mem_calls.append([[int(x) for x in row] for row in fits])
                 mem_obs.append(([float(x) for x in selector.best_point.reshape(-1)],
-                                [float(x) for x in selector.worst_point.reshape(-1)]))
+                                [float(x) for x in selector.worst_point.reshape(-1)],
+                                [[int(x) for x in row] for row in selector.extreme_points]))
         if selector is not None:
             case = {"kind": "nsga3-memory", "calls": mem_calls, "observed": mem_obs}
             note(case, True)
             # oracle: the remembered best/worst points are the extremes over everything seen so far
             seen = []
-            for fits, (b, wst) in zip(mem_calls, mem_obs):
+            for fits, (b, wst, _ext) in zip(mem_calls, mem_obs):
                 seen += fits
                 if b != [float(min(c)) for c in zip(*seen)] or wst != [float(max(c)) for c in zip(*seen)]:
                     run.oracle_violation("selNSGA3WithMemory: remembered best/worst point is not the extreme of the fitnesses seen", case)
             add("memory", "CMem %s %s" % (clist([czll(c) for c in mem_calls]),
-                                          clist(["(%s, %s)" % (czl([int(x) for x in b]), czl([int(x) for x in wst])) for b, wst in mem_obs])), case)
+                                          clist(["(%s, %s, %s)" % (czl([int(x) for x in b]), czl([int(x) for x in wst]), czll(ext))
+                                                 for b, wst, ext in mem_obs])), case)
 
     for _ in range(run.scale(350, 4000)):
         nsga3_case()
